@@ -1,34 +1,105 @@
 ----------------------------- MODULE Trace_Store -----------------------------
-(* Judges store histories executed on both backends.  Each StoreOp event     *)
-(* carries the operation, the result class and a read-back snapshot of the   *)
-(* etcd store (classE, snapE) and of the Redis store (classR, snapR).        *)
-(* C23: same result, same observable metadata, and a failed create leaves    *)
-(* the store as it was.  A run is judged up to its first divergence (after   *)
-(* it the two stores are in different states and everything differs).        *)
-EXTENDS Integers, Sequences, FiniteSets, TLC, TraceBase
-VARIABLES l, prevE, prevR, diverged
-tvars == <<l, prevE, prevR, diverged>>
+(* Judges store histories executed on both backends against the Store        *)
+(* reference.  Each StoreOp event carries the call, the result class and a   *)
+(* read-back snapshot of the etcd store (classE, snapE) and of the Redis     *)
+(* store (classR, snapR).  The trace spec replays the call with Store!Apply  *)
+(* and compares, per backend, result and snapshot with Store!Class and the   *)
+(* projection of the reference state.                                        *)
+(*  C23: same result, same observable metadata on both backends, and a      *)
+(*       failed create leaves the store as it was.                           *)
+(*  C24: list / deploy-status answers equal the reference queries.           *)
+(*  REF: any other deviation from the reference (diagnostic, no verdict).    *)
+(* A run is judged up to its first divergence (afterwards the stores are in  *)
+(* different states and everything differs).                                 *)
+EXTENDS Store, TraceBase
+VARIABLES l, prevE, prevR, diverged, offE, offR
+tvars == <<svars, hist, l, prevE, prevR, diverged, offE, offR>>
+
+SetEq(seq, S) == Len(seq) = Cardinality(S) /\ \A i \in 1..Len(seq) : seq[i] \in S
+Tag(K) == {k[2] \o "@" \o k[1] : k \in K}
+ListEq(seq, K) == IF Dangling(K) THEN seq = <<"!err">> ELSE SetEq(seq, Tag(K))
+SizeEq(sz, K, lim) == LET m == IF Cardinality(K) < lim THEN Cardinality(K) ELSE lim IN
+                      IF Dangling(K) THEN sz \in {-1, m} ELSE sz = m
+OkStr(b) == IF b THEN "ok" ELSE "err"
+
+\* the read-back snapshot s equals the projection of the reference state (primed = after the call)
+PodsOK(s) == SetEq(s.pods, pods')
+PodOK(s) == \A p \in {"p1", "p2"} :
+    LET N == {n \in Dom(nodes') : nodes'[n].pod = p} IN
+    /\ s.pod[p].get = OkStr(p \in pods')
+    /\ SetEq(s.pod[p].all, N)
+    /\ SetEq(s.pod[p].up, {n \in N : ~nodes'[n].bypass})
+    /\ SetEq(s.pod[p].labelled, {n \in N : nodes'[n].lab = "k"})
+NodeOK(s) == \A n \in {"n1", "n2", "n3"} :
+    LET r == s.node[n]
+        K == {k \in Dom(widx') : k[1] = n} IN
+    /\ IF n \in Dom(nodes') THEN r.get = "ok" /\ r.pod = nodes'[n].pod /\ r.bypass = nodes'[n].bypass /\ r.cert = nodes'[n].cert
+                            ELSE r.get = "err" /\ r.pod = "" /\ r.bypass = FALSE /\ r.cert = FALSE
+    /\ r.status = OkStr(n \in nstat')
+    /\ IF K = {} THEN r.workloads = <<>> ELSE IF n \notin Dom(nodes') THEN r.workloads = <<"!err">> ELSE SetEq(r.workloads, Tag(K))
+WlOK(s) == \A w \in {"w1", "w2", "w3", "w4"} :
+    LET r == s.wl[w] IN
+    IF w \in Dom(winfo') /\ winfo'[w].node \in Dom(nodes')
+    THEN r.get = "ok" /\ r.node = winfo'[w].node /\ r.updated = winfo'[w].upd
+         /\ r.status = (IF <<winfo'[w].node, w>> \in wstat' THEN "set" ELSE "none")
+    ELSE r.get = "err" /\ r.node = "" /\ r.updated = FALSE /\ r.status = "none"
+PairsP(a, e, n) == {k \in Dom(widx') : (a = "" \/ (AppOf(k[2]) = a /\ (e = "" \/ (EntryOf(k[2]) = e /\ (n = "" \/ k[1] = n)))))}
+DanglingP(K) == \E k \in K : k[1] \notin Dom(nodes')
+ListEqP(seq, K) == IF DanglingP(K) THEN seq = <<"!err">> ELSE SetEq(seq, Tag(K))
+SizeEqP(sz, K, lim) == LET m == IF Cardinality(K) < lim THEN Cardinality(K) ELSE lim IN
+                       IF DanglingP(K) THEN sz \in {-1, m} ELSE sz = m
+ListOK(s) ==
+    /\ ListEqP(s.list.a, PairsP("a", "", "")) /\ ListEqP(s.list.ax, PairsP("a", "x", "")) /\ ListEqP(s.list.axn1, PairsP("a", "x", "n1"))
+    /\ ListEqP(s.list.b, PairsP("b", "", "")) /\ ListEqP(s.list.ay, PairsP("a", "y", ""))
+    /\ SizeEqP(s.list.aLimit1, PairsP("a", "", ""), 1) /\ SizeEqP(s.list.aLimit2, PairsP("a", "", ""), 2)
+ProcOnP(a, e, n) == LET K == {k \in Dom(proc') : k[1] = a \o "/" \o e /\ k[2] = n}
+                        RECURSIVE S(_)
+                        S(X) == IF X = {} THEN 0 ELSE LET x == CHOOSE y \in X : TRUE IN proc'[x] + S(X \ {x})
+                    IN S(K)
+RowOK(row, a, e) == /\ Len(row) = 4 /\ row[4] = 0
+                    /\ \A i \in 1..3 : LET n == <<"n1", "n2", "n3">>[i] IN row[i] = Cardinality(PairsP(a, e, n)) + ProcOnP(a, e, n)
+DeployOK(s) == RowOK(s.deploy.ax, "a", "x") /\ RowOK(s.deploy.ay, "a", "y") /\ RowOK(s.deploy.bx, "b", "x")
+
+FirstBad(s) == IF ~PodsOK(s) THEN "pods" ELSE IF ~PodOK(s) THEN "pod" ELSE IF ~NodeOK(s) THEN "node" ELSE IF ~WlOK(s) THEN "wl"
+               ELSE IF ~ListOK(s) THEN "list" ELSE IF ~DeployOK(s) THEN "deploy" ELSE "none"
+RefProp(part) == IF part \in {"list", "deploy"} THEN "C24" ELSE "REF"
+
 Parts == <<"pods", "pod", "node", "wl", "list", "deploy">>
 FirstDiff(a, b) == LET D == {i \in 1..Len(Parts) : a[Parts[i]] # b[Parts[i]]} IN
                    IF D = {} THEN "none" ELSE Parts[CHOOSE i \in D : \A j \in D : i <= j]
 Creates == {"AddPod", "AddNode", "AddWorkload", "CreateProc"}
+OpTag(o) == o.op \o (IF o.op = "AddWorkload" /\ o.c # "" THEN "+marker" ELSE "")
+                 \o (IF o.op \in {"SetNodeStatus", "SetWorkloadStatus"} THEN (IF o.n = 0 THEN "/ttl0" ELSE IF o.n < 0 THEN "/ttl-" ELSE "/ttl+") ELSE "")
 
-TraceInit == l = 1 /\ prevE = <<>> /\ prevR = <<>> /\ diverged = FALSE
+TraceInit == SInit /\ hist = <<>> /\ l = 1 /\ prevE = <<>> /\ prevR = <<>> /\ diverged = FALSE /\ offE = FALSE /\ offR = FALSE
+RefCheck(off, b, e, cls, snap) ==
+    IF off THEN TRUE
+    ELSE /\ Report(cls = Class(e.op), "REF", l, "result/" \o b \o "/" \o OpTag(e.op) \o "/got-" \o cls \o "/ref-" \o Class(e.op))
+         /\ LET p == FirstBad(snap) IN Report(p = "none", RefProp(p), l, "ref-snapshot/" \o b \o "/" \o OpTag(e.op) \o "/" \o p)
 TraceNext ==
     /\ l <= Len(Trace)
+    /\ UNCHANGED hist
     /\ LET e == Trace[l] IN
        CASE e.ev = "StoreRun" ->
+              /\ pods' = {} /\ nodes' = <<>> /\ winfo' = <<>> /\ widx' = <<>> /\ wstat' = {} /\ nstat' = {} /\ proc' = <<>>
               /\ Report(e.snapE = e.snapR, "C23", l, "initial/snapshot/" \o FirstDiff(e.snapE, e.snapR))
-              /\ prevE' = e.snapE /\ prevR' = e.snapR /\ diverged' = FALSE
+              /\ Report(FirstBad(e.snapE) = "none", "REF", l, "initial/etcd/" \o FirstBad(e.snapE))
+              /\ Report(FirstBad(e.snapR) = "none", "REF", l, "initial/redis/" \o FirstBad(e.snapR))
+              /\ prevE' = e.snapE /\ prevR' = e.snapR /\ diverged' = FALSE /\ offE' = FALSE /\ offR' = FALSE
          [] e.ev = "StoreOp" ->
-              /\ (IF diverged THEN TRUE ELSE Report(e.classE = e.classR, "C23", l, e.op.op \o "/result/etcd-" \o e.classE \o "/redis-" \o e.classR))
-              /\ (IF diverged THEN TRUE ELSE Report(e.snapE = e.snapR, "C23", l, e.op.op \o "/snapshot/" \o FirstDiff(e.snapE, e.snapR)))
+              /\ Apply(e.op)
+              /\ (IF diverged THEN TRUE ELSE Report(e.classE = e.classR, "C23", l, OpTag(e.op) \o "/result/etcd-" \o e.classE \o "/redis-" \o e.classR))
+              /\ (IF diverged \/ e.classE # e.classR THEN TRUE ELSE Report(e.snapE = e.snapR, "C23", l, OpTag(e.op) \o "/snapshot/" \o FirstDiff(e.snapE, e.snapR)))
               /\ (IF diverged THEN TRUE ELSE Report((e.op.op \in Creates /\ e.classE = "err") => e.snapE = prevE, "C23", l,
-                                    "failed-create-changed-store/etcd/" \o e.op.op \o "/" \o FirstDiff(e.snapE, prevE)))
+                                    "failed-create-changed-store/etcd/" \o OpTag(e.op) \o "/" \o FirstDiff(e.snapE, prevE)))
               /\ (IF diverged THEN TRUE ELSE Report((e.op.op \in Creates /\ e.classR = "err") => e.snapR = prevR, "C23", l,
-                                    "failed-create-changed-store/redis/" \o e.op.op \o "/" \o FirstDiff(e.snapR, prevR)))
+                                    "failed-create-changed-store/redis/" \o OpTag(e.op) \o "/" \o FirstDiff(e.snapR, prevR)))
+              /\ RefCheck(offE, "etcd", e, e.classE, e.snapE)
+              /\ RefCheck(offR, "redis", e, e.classR, e.snapR)
               /\ prevE' = e.snapE /\ prevR' = e.snapR
               /\ diverged' = (diverged \/ e.classE # e.classR \/ e.snapE # e.snapR)
+              /\ offE' = (offE \/ e.classE # Class(e.op) \/ FirstBad(e.snapE) # "none")
+              /\ offR' = (offR \/ e.classR # Class(e.op) \/ FirstBad(e.snapR) # "none")
     /\ l' = l + 1
 TraceSpec == TraceInit /\ [][TraceNext]_tvars
 TraceAccepted == IF TLCGet("stats").diameter - 1 = Len(Trace)
